@@ -70,6 +70,11 @@ theorem imports_order_independent (l1 l2 : List Import) (hp : l1.Perm l2) :
   unfold IM.ofRecorded
   rw [sortBy_eq_of_perm importLe importLe_total importLe_trans l1 l2 hp
     (fun a _ b _ h1 h2 => importLe_antisymm a b h1 h2)]
+  have hany : l1.any isEnabling = l2.any isEnabling := by
+    rw [Bool.eq_iff_iff]
+    simp only [List.any_eq_true]
+    exact ⟨fun ⟨x, hx, he⟩ => ⟨x, hp.mem_iff.1 hx, he⟩, fun ⟨x, hx, he⟩ => ⟨x, hp.mem_iff.2 hx, he⟩⟩
+  rw [hany]
 
 theorem reqLe_total (a b : Req) : reqLe a b = true ∨ reqLe b a = true := by
   unfold reqLe
